@@ -183,14 +183,14 @@ class CallMixin:
             st = T.Set(T.INT)
             s = fresh("setoftup", st.sort())
             n = fresh("n", T.I)
-            self._assume(p, z3.ForAll([n], s[n] == TH.tmem(v.t, n), patterns=[s[n]]))
+            self._assume(p, z3.ForAll([n], s[n] == TH.tmem(v.t, n), patterns=[s[n], TH.tmem(v.t, n)]))
             self._assume(p, z3.Implies(TH.distinct_t(v.t), st.card()(s) == TH.tlen(v.t)))
             return T.scalar(st, s)
         if isinstance(v.ty, T.Bag):
             st = T.Set(v.ty.e)
             s = fresh("setofbag", st.sort())
             x = fresh("x", v.ty.e.sort())
-            self._assume(p, z3.ForAll([x], s[x] == (v.t[x] >= 1), patterns=[s[x]]))
+            self._assume(p, z3.ForAll([x], s[x] == (v.t[x] >= 1), patterns=[s[x], v.t[x]]))
             self._assume(p, st.card()(s) <= v.ty.blen()(v.t))
             return T.scalar(st, s)
         if isinstance(v.ty, T.Map):
